@@ -514,8 +514,8 @@ def _game_family(name, shard):
             _FAMILIES[key] = U.U_RB_games()
         elif name == "U-PAIR":
             _FAMILIES[key] = U.U_PAIR_games()
-        elif name in ("U-WIDE", "U-BIG", "U-MF"):
-            _FAMILIES[key] = {"U-WIDE": U.U_WIDE_games, "U-BIG": U.U_BIG_games, "U-MF": U.U_MF_games}[name]()
+        elif name in ("U-WIDE", "U-BIG", "U-MF", "U-ULP"):
+            _FAMILIES[key] = {"U-WIDE": U.U_WIDE_games, "U-BIG": U.U_BIG_games, "U-MF": U.U_MF_games, "U-ULP": U.U_ULP_games}[name]()
         elif name == "U-SC":
             _FAMILIES[key] = U.U_SC_games((16, 32, 50, 64, 100, 128, 256) if shard.get("all_sizes") else (256,))
         elif name in ("U-E", "U-C", "U-L", "U-R", "U-P2", "U-N", "U-W", "U-Z", "U-G", "U-K"):
